@@ -888,7 +888,7 @@ where
 /// get stored tx
 /// crashes if stored tx has total fees exceeding 2^40 nanogrin
 pub fn get_stored_tx<'a, T: ?Sized, C, K>(
-	w: &T,
+	w: &mut T,
 	tx_id: Option<u32>,
 	slate_id: Option<&Uuid>,
 ) -> Result<Option<Slate>, Error>
@@ -899,7 +899,11 @@ where
 {
 	let mut uuid = None;
 	if let Some(i) = tx_id {
-		let tx = w.tx_log_iter().find(|t| t.id == i);
+		// log ids are per account
+		let parent_key_id = w.parent_key_id();
+		let tx = w
+			.tx_log_iter()
+			.find(|t| t.id == i && t.parent_key_id == parent_key_id);
 		if let Some(t) = tx {
 			uuid = t.tx_slate_id;
 		}
